@@ -42,6 +42,10 @@ pub enum Framing {
     H10Cl,
     /// HTTP/1.0 200 with content-length: 5 and connection: keep-alive (persistent)
     H10Ka,
+    /// HTTP/1.1 426 Upgrade Required, upgrade: websocket, content-length: 5 (a body as framed)
+    S426Upgrade,
+    /// HTTP/1.1 200 OK carrying an `upgrade: websocket` header, content-length: 5
+    S200Upgrade,
 }
 
 #[derive(Clone, Copy, Debug, Serialize, Deserialize, PartialEq, Eq, Hash)]
@@ -111,7 +115,13 @@ impl Framing {
             Framing::H10Eof => "h10eof",
             Framing::H10Cl => "h10cl",
             Framing::H10Ka => "h10ka",
+            Framing::S426Upgrade => "s426upgrade",
+            Framing::S200Upgrade => "s200upgrade",
         }
+    }
+
+    pub fn has_upgrade_header(self) -> bool {
+        matches!(self, Framing::S426Upgrade | Framing::S200Upgrade)
     }
 
     pub fn method_head(self) -> bool {
@@ -149,6 +159,16 @@ fn chunk(out: &mut Vec<u8>, cuts: &mut Vec<usize>, size_line: &str, data: &[u8])
         out.extend_from_slice(b"\r\n");
         cuts.push(out.len() - 1);
         cuts.push(out.len());
+    }
+}
+
+/// interim (1xx) response of the scripted server; unsolicited ones carry the request tag
+pub fn interim_bytes(i: crate::exec::Interim, j: usize) -> Vec<u8> {
+    use crate::exec::Interim;
+    match i {
+        Interim::None => Vec::new(),
+        Interim::Continue100 | Interim::ContinueThenClose => format!("HTTP/1.1 100 Continue\r\nx-req: {j}\r\n\r\n").into_bytes(),
+        Interim::Early103 => format!("HTTP/1.1 103 Early Hints\r\nlink: </s.css>; rel=preload\r\nx-req: {j}\r\n\r\n").into_bytes(),
     }
 }
 
@@ -272,6 +292,19 @@ pub fn build(f: Framing, j: usize, leftover: Leftover) -> Resp {
             wire_body = body.clone();
             kind = Kind::Length;
             not_persistent = Some("http10-no-keepalive");
+        }
+        Framing::S426Upgrade => {
+            status = 426;
+            head = format!("HTTP/1.1 426 Upgrade Required\r\nupgrade: websocket\r\ncontent-length: 5\r\n{tag}\r\n");
+            body = tag_body(j, 5);
+            wire_body = body.clone();
+            kind = Kind::Length;
+        }
+        Framing::S200Upgrade => {
+            head = format!("HTTP/1.1 200 OK\r\nupgrade: websocket\r\ncontent-length: 5\r\n{tag}\r\n");
+            body = tag_body(j, 5);
+            wire_body = body.clone();
+            kind = Kind::Length;
         }
         Framing::H10Ka => {
             head = format!("HTTP/1.0 200 OK\r\nconnection: keep-alive\r\ncontent-length: 5\r\n{tag}\r\n");
